@@ -128,6 +128,17 @@ class C05(Check):
         return {'kind': 'cyc', 'g': g, 'inputs': ['a', 'b', 'ab', 'ac', 'aa', 'ba'], 'lexer': rng.choice(['basic', 'dynamic', 'dynamic_complete']),
                 'priority': mode, 'ordered_sets': rng.random() < 0.8}
 
+    CTX_TERMINALS = [r'/[a-z]+\b/', r'/[a-z]+(?![a-z])/', r'/[a-z]+$/', r'/[a-z]+(?=[^a-z]|\Z)/', r'/[a-z]+/']
+
+    def _gen_ctx_case(self, rng):
+        """terminals that look BEYOND their own end (word boundary, look-ahead, anchor): whether NAME matches text[i:j] depends on what
+        follows in the input.  The returned tree must consist of tokens their terminal really matches there."""
+        pat = rng.choice(self.CTX_TERMINALS)
+        p1, p2 = rng.sample([1, 2, 3], 2)
+        text = 'start: one | two | three\none.%d: NAME\ntwo.%d: NAME NAME\nthree: NAME NAME NAME\nNAME: %s\n' % (p1, p2, pat)
+        return {'kind': 'ctx', 'text': text, 'pattern': pat[1:-1], 'inputs': ['abc', 'ab', 'a', 'abcd'], 'lexer': rng.choice(['dynamic', 'dynamic_complete', 'dynamic_complete']),
+                'priority': rng.choice(['normal', 'invert', None]), 'ordered_sets': True}
+
     def _gen_det_case(self, rng):
         if rng.random() < 0.5:
             text, inputs = rng.choice(DET_GRAMMARS)
@@ -145,7 +156,7 @@ class C05(Check):
             nodes_ = [{'hashseed': rng.randrange(1, 1 << 31), 'salt': rng.randrange(1 << 30), 'noise_seed': rng.randrange(1, 1 << 20),
                        'order': rng.sample(range(10), 10), 'salted': rng.random() < 0.7} for _ in range(3)]
             return {'mode': 'nodes', 'cases': cases, 'nodes': nodes_, 'orders': orders[:2]}
-        case = self._gen_opt_case(rng) if r < 0.55 else (self._gen_emp_case(rng) if r < 0.7 else (self._gen_cyc_case(rng) if r < 0.78 else self._gen_det_case(rng)))
+        case = self._gen_opt_case(rng) if r < 0.55 else (self._gen_emp_case(rng) if r < 0.7 else (self._gen_cyc_case(rng) if r < 0.78 else (self._gen_ctx_case(rng) if r < 0.82 else self._gen_det_case(rng))))
         return {'mode': 'salts', 'cases': [case], 'orders': orders}
 
     # ------------------------------------------------------------------ execution
@@ -227,6 +238,12 @@ class C05(Check):
                     if r != flat[0]:
                         what = 'hashseed' if labels[oi].startswith('node') else 'salt'
                         return Violation('nondeterministic(%s)' % what, input=s, order_a=labels[0], a=flat[0], order_b=labels[oi], b=r, grammar=lc['text'], options=lc['options']), False
+            if c['kind'] == 'ctx':
+                v = self._judge_ctx(c, lc, s, flat, labels, out)
+                if v is not None:
+                    return v, nontrivial
+                nontrivial = True
+                continue
             if c['kind'] == 'det':
                 if flat[0][0] == 'ok':
                     nontrivial = True
@@ -293,6 +310,42 @@ class C05(Check):
         return None, nontrivial
 
     KNOWN_CYCLIC = 'suboptimal:cyclic-unit-rules'
+    KNOWN_CTX = 'unsound-tree:token-not-matched-in-context:dynamic_complete'
+
+    def _judge_ctx(self, c, lc, s, flat, labels, out):
+        """every token of the returned tree must be a match of its terminal AT ITS PLACE IN THE INPUT: the regexp, started at the token's
+        offset, can end exactly at the token's end with the real rest of the text after it (the end is pinned by a look-ahead that
+        counts the remaining characters)"""
+        import re
+        if flat[0][0] != 'ok':
+            return None
+        for oi, r in enumerate(flat):
+            d = prio.from_json(r[1])
+            leaves = []
+
+            def walk(t):
+                if len(t) == 2 and isinstance(t[1], str) and t[1] == 'NAME' and isinstance(t[0], str):
+                    leaves.append(t[0])
+                else:
+                    for ch in t[1:]:
+                        walk(ch)
+            walk(d)
+            if ''.join(leaves) != s or d[0] != 'start' or len(d) != 2 or d[1][0] not in ('one', 'two', 'three') or len(d[1]) - 1 != {'one': 1, 'two': 2, 'three': 3}[d[1][0]]:
+                return Violation('unsound-tree', input=s, order=labels[oi], got=r[1], note='not a tree of this grammar over this text', grammar=lc['text'], options=lc['options'])
+            pos = 0
+            for tok in leaves:
+                end = pos + len(tok)
+                pinned = re.compile('(?:%s)(?=(?s:.{%d})\\Z)' % (c['pattern'], len(s) - end))
+                m = pinned.match(s, pos)
+                out.count('tokens-checked-in-context')
+                if m is None or m.end() != end:
+                    if c['lexer'] == 'dynamic_complete' and self.KNOWN_CTX in self.open_sigs:
+                        out.count('known-finding:' + self.KNOWN_CTX)
+                        return None
+                    return Violation('unsound-tree', input=s, order=labels[oi], got=r[1], token=tok, at=pos, in_context=True,
+                                     note='the terminal cannot match this token at this place of the input', grammar=lc['text'], options=lc['options'])
+                pos = end
+        return None
 
     def _judge_cyclic(self, c, lc, s, flat, labels, out):
         """grammars with cycles of unit rules: infinitely many derivations, but every cycle weighs <= 0 (>= 0 under invert), so the
@@ -351,6 +404,8 @@ class C05(Check):
         c = plan['cases'][violation['detail'].get('case', 0) if len(plan['cases']) > 1 else 0]
         if c['kind'] == 'cyc' and violation['kind'].startswith('suboptimal'):
             return self.KNOWN_CYCLIC
+        if c['kind'] == 'ctx' and violation['kind'] == 'unsound-tree' and violation['detail'].get('in_context') and c['lexer'] == 'dynamic_complete':
+            return self.KNOWN_CTX
         return '%s:%s:%s' % (violation['kind'], c['kind'], c['lexer'])
 
     def fixed_plans(self, tier):
